@@ -32,3 +32,53 @@ class Sentinel:
 
 def quiet():
   warnings.simplefilter('ignore')
+
+
+import numpy as np
+
+KIND = {'Covariance': ('points', None), 'LFDA': ('points', None), 'LMNN': ('points', None), 'NCA': ('points', None),
+        'MLKR': ('points', None), 'RCA': ('points', None), 'RCA_Supervised': ('points', None),
+        'ITML': ('pairs', 2), 'ITML_Supervised': ('points', None), 'MMC': ('pairs', 2), 'MMC_Supervised': ('points', None),
+        'SDML': ('pairs', 2), 'SDML_Supervised': ('points', None), 'LSML': ('quadruplets', 4), 'LSML_Supervised': ('points', None),
+        'SCML': ('triplets', 3), 'SCML_Supervised': ('points', None)}
+
+
+def make_fitted(ml, cls_name, L, prep_X=None, threshold=None):
+  """an estimator whose fitted state is set directly (what fit would leave behind), so that the observers can be
+  exercised for ANY transformation L, including rank-deficient ones, without running a solver"""
+  from metric_learn._util import ArrayIndexer
+  est = getattr(ml, cls_name)()
+  est.components_ = np.array(L, dtype=float)
+  est.n_features_in_ = est.components_.shape[1]
+  if prep_X is not None:
+    est.preprocessor = prep_X
+    est.preprocessor_ = ArrayIndexer(prep_X)
+  else:
+    est.preprocessor_ = None
+  if KIND[cls_name][0] == 'pairs':
+    est.threshold_ = 1.0 if threshold is None else float(threshold)
+  return est
+
+
+def transformations(rng, d):
+  """a spread of learned transformations: full rank, low rank (k < d), rank deficient, tiny/huge scale, identity"""
+  yield 'identity', np.eye(d)
+  yield 'random', rng.randn(d, d)
+  for k in range(1, d):
+    yield 'lowrank-%d' % k, rng.randn(k, d)
+  A = rng.randn(d, d)
+  A[-1] = A[0]
+  yield 'rank-deficient', A
+  yield 'tiny', rng.randn(d, d) * 1e-8
+  yield 'huge', rng.randn(d, d) * 1e6
+  yield 'zero', np.zeros((d, d))
+
+
+def first_failure(cases, only=None):
+  for desc, tags, thunk in cases:
+    if only is not None and not (set(tags) & set(only)):
+      continue
+    bad = thunk()
+    if bad is not None:
+      return desc, bad
+  return None
